@@ -140,6 +140,8 @@ def gen_cases(tier, seed):
                 pool = sc if tier != "quick" else rnd.sample(sc, 14)
                 for k, (v, d) in enumerate(pool):
                     cases.append({"target": name, "kind": "ideal" if prim.primtype.name == "IDEAL" else "physical", "set": {field: k}, "pool": "scalar"})
+                # an explicit None given by keyword: the parameter is left out of the package (also where the field's default is not None)
+                cases.append({"target": name, "kind": "ideal" if prim.primtype.name == "IDEAL" else "physical", "set": {field: 0}, "pool": "none"})
             elif "str" in dt:
                 for k in range(3):
                     cases.append({"target": name, "kind": "ideal" if prim.primtype.name == "IDEAL" else "physical", "set": {field: k}, "pool": "str"})
@@ -191,6 +193,8 @@ def run_case(args):
             other = mk(theirs)
         elif case["pool"] in ("scalar", "scalar_raw"):
             v, d = sc[k]
+        elif case["pool"] == "none":
+            v, d = None, desc("none")
         elif case["pool"] == "str":
             v, d = [("mymodel", desc("str", b=B("mymodel"))), ("a b", desc("str", b=B("a b"))), (None, desc("none"))][k]
         else:
